@@ -93,6 +93,42 @@ let ht_pairs st (w : window) (ps : pred list) =
 
 let is_subset h t = List.for_all (fun a -> List.mem a t) h
 
+
+(* ---------- sem_decompose ---------- *)
+(* input ((strategy problem) (problems ..)): every emitted problem has exactly one conjecture, and on
+   sampled interpretations "some emitted problem is refuted" iff the original problem is refuted
+   (all axioms true, some conjecture false) *)
+let one_conjecture (p : problem) = List.length (conjectures p) = 1
+let sem_decompose (e : Sexp.t) : Sexp.t =
+  match e with
+  | L [ L [ _; p ]; L (A "problems" :: ps) ] ->
+    let p = problem p and ps = List.map problem ps in
+    (match List.find_opt (fun q -> not (one_conjecture q)) ps with
+     | Some q -> L [ A "cex"; S "an emitted problem does not have exactly one conjecture"; of_problem q ]
+     | None ->
+       let fs = problem_formulas p in
+       let st = Semlib.rng_of (Semlib.hash_sexp e) in
+       let w = Semlib.window_of ~max_ints:3 ~max_syms:2 fs in
+       let preds = uniq (List.concat_map predicates fs) in
+       let atoms = Semlib.ground_atoms st preds (Semlib.take 3 (Semlib.shuffle st (Semlib.general_values w))) 6 in
+       let fcs = uniq (List.concat_map function_constants fs) in
+       let count = ref 0 and result = ref None in
+       for _ = 1 to 16 do
+         if !result = None then begin
+           let m = Semlib.random_subset st atoms in
+           let fi = Semlib.random_ffint st w fcs in
+           let holds = make_holds w fi m in
+           incr count;
+           let a = refutes holds p and b = List.exists (refutes holds) ps in
+           if a <> b then
+             result := Some (L [ A "cex"; L [ A "I"; Semlib.of_fpint m ]; L [ A "placeholders"; Semlib.of_ffint fi ];
+                                 L [ A "window"; Semlib.of_window w ]; L [ A "original-refuted"; of_boolv a ];
+                                 L [ A "some-emitted-problem-refuted"; of_boolv b ] ])
+         end
+       done;
+       (match !result with Some r -> r | None -> ok !count))
+  | _ -> bad "sem_decompose: %s" (to_string e)
+
 (* ---------- sem_c19_strong ---------- *)
 let sem_c19_strong (e : Sexp.t) : Sexp.t =
   match e with
@@ -103,6 +139,9 @@ let sem_c19_strong (e : Sexp.t) : Sexp.t =
     else begin
       let fams = families fams in
       let all_formulas = List.concat_map (fun (_, ps) -> List.concat_map problem_formulas ps) fams in
+      match List.find_opt (fun q -> not (one_conjecture q)) (List.concat_map snd fams) with
+      | Some q -> L [ A "cex"; S "an emitted problem does not have exactly one conjecture"; of_problem q ]
+      | None ->
       match exact_window all_formulas with
       | None -> ok 0
       | Some w ->
@@ -227,6 +266,48 @@ let sem_outline_gen ~(strict : bool) (e : Sexp.t) : Sexp.t =
   | L [ _; _ ] -> ok 0
   | _ -> bad "sem_outline: %s" (to_string e)
 
+
+(* ---------- sem_c13_order ---------- *)
+(* On an accepted external task with a proof outline: the outline problem <dir>_outline_i_j must see
+   exactly the stable premises, the premises of the direction, the D definitions of the direction and
+   the consequences of the i lemmas before it (every lemma has one consequence); the first final
+   problem <dir>_problem_0 sees the stable premises, the premises and all L consequences.  Hence
+   #axioms(outline_i_j) - i = #axioms(problem_0) - L + D.  A lemma that is available before its
+   conjecture problems are emitted breaks this count. *)
+let sem_c13_order (e : Sexp.t) : Sexp.t =
+  match e with
+  | L [ L [ task; _ ]; L [ A "ok"; _; L (A "problems" :: pbs) ] ] ->
+    let t = Ops_tasks.ext_task task in
+    let pbs = List.map problem pbs in
+    let in_dir fwd (a : aformula_annot) = match a.an_dir with DUniversal -> true | DForward -> fwd | DBackward -> not fwd in
+    let result = ref None and count = ref 0 in
+    List.iter (fun (prefix, fwd) ->
+        let lemmas = List.filter (fun (a : aformula_annot) -> (a.an_role = RLemma || a.an_role = RInductiveLemma) && in_dir fwd a) t.et_proof_outline in
+        let defs = List.filter (fun (a : aformula_annot) -> a.an_role = RDefinition && in_dir fwd a) t.et_proof_outline in
+        let nl = List.length lemmas and nd = List.length defs in
+        match List.find_opt (fun p -> name_of p = prefix ^ "_problem_0") pbs with
+        | None -> ()
+        | Some final0 ->
+          let base = List.length (axioms final0) - nl + nd in
+          List.iter (fun (p : problem) ->
+              let n = name_of p in
+              let pre = prefix ^ "_outline_" in
+              if starts_with pre n && !result = None then begin
+                let rest = String.sub n (String.length pre) (String.length n - String.length pre) in
+                match String.split_on_char '_' rest with
+                | [ i; _ ] ->
+                  let i = int_of_string i in
+                  incr count;
+                  let got = List.length (axioms p) in
+                  if got - i <> base then
+                    result := Some (L [ A "cex"; S "an outline problem does not see exactly the premises, the definitions and the consequences of EARLIER lemmas";
+                                        S n; L [ A "axioms"; A (string_of_int got) ]; L [ A "expected"; A (string_of_int (base + i)) ] ])
+                | _ -> ()
+              end) pbs) [ ("forward", true); ("backward", false) ];
+    (match !result with Some r -> r | None -> ok !count)
+  | L [ _; _ ] -> ok 0
+  | _ -> bad "sem_c13_order: %s" (to_string e)
+
 (* ---------- sem_c11 ---------- *)
 let sem_c11 (e : Sexp.t) : Sexp.t =
   match e with
@@ -285,6 +366,9 @@ let sem_c19_external (e : Sexp.t) : Sexp.t =
   | L [ _; fams ] ->
     let fams = families fams in
     let all_formulas = uniq (List.concat_map (fun (_, ps) -> List.concat_map problem_formulas ps) fams) in
+    match List.find_opt (fun q -> not (one_conjecture q)) (List.concat_map snd fams) with
+    | Some q -> L [ A "cex"; S "an emitted problem does not have exactly one conjecture"; of_problem q ]
+    | None ->
     if List.exists formula_arith all_formulas then ok 0
     else begin
       match exact_window all_formulas with
@@ -398,11 +482,13 @@ let () =
   Ops.register "sem_c02" (sem_c02_gen ~all:false);
   Ops.register "sem_c02_all" (sem_c02_gen ~all:true);
   Ops.register "sem_break" sem_break;
+  Ops.register "sem_decompose" sem_decompose;
   Ops.register "sem_c19_strong" sem_c19_strong;
   Ops.register "sem_c03" (sem_c03_gen ~all:false);
   Ops.register "sem_c03_all" (sem_c03_gen ~all:true);
   Ops.register "sem_outline" (sem_outline_gen ~strict:false);
   Ops.register "sem_outline_all" (sem_outline_gen ~strict:true);
   Ops.register "sem_c11" sem_c11;
+  Ops.register "sem_c13_order" sem_c13_order;
   Ops.register "sem_c19_external" sem_c19_external
 let init () = ()
